@@ -40,6 +40,8 @@ ASSUMPTIONS = [
     "the 'helpers leave constants, variables, subscripts ... unwrapped' sentence is a pure "
     "function of the argument and is only ridden along per helper as documented in the code",
 ]
+# a share of every batch runs under python -O (asserts stripped)
+BATCHES = [{"share": 0.85}, {"share": 0.15, "pyflags": ["-O"], "tier_suffix": "-O"}]
 EXPECTED_PROBES = ["lists_dropped", "falsy_wrapper_values", "lists_with_repeats", "commuted_repeats", "nested_repeats",
                    "prewrapped_lists", "wrappers_evaluated", "post_fault_cache_hits",
                    "s2_bounds_checked", "reused_evaluator_evals"]
@@ -50,8 +52,9 @@ P = "pymbolic.primitives."
 # {{{ generation
 
 
-def _gen_list(r, wrapper_free, nv):
-    """-> list of terms with deliberate repetition"""
+def _gen_list(r, wrapper_free, nv, shared_blocks=None):
+    """-> list of terms with deliberate repetition; shared_blocks carries building blocks
+    from one list of the run to the next, so later lists repeat parts of earlier ones"""
     vars_ = ["a", "b", "c", "d"]
 
     def const():
@@ -62,7 +65,7 @@ def _gen_list(r, wrapper_free, nv):
     def leaf():
         return ["n", "Variable", [["s", r.choice(vars_)]]] if r.random() < 0.7 else const()
 
-    blocks = []
+    blocks = shared_blocks if shared_blocks is not None else []
 
     def expr(d, maxd):
         if blocks and r.random() < 0.35:
@@ -136,8 +139,11 @@ def generate(seed, tier):
         # beyond a call -- keyed on object identity, say -- meets recycled objects
         ev = {"ev": 0, "cached": r.random() < 0.3, "vars": _gen_vars(r)}
         nrounds = r.randint(6, 18)
+        shared = []
         for lid in range(nrounds):
-            terms = _gen_list(r, True, False)
+            if len(shared) > 8:
+                del shared[:4]
+            terms = _gen_list(r, True, False, shared if r.random() < 0.7 else None)
             ops.append(["list", lid, terms, True])
             ops.append(["tag", lid])
             if r.random() < 0.5:
@@ -150,9 +156,10 @@ def generate(seed, tier):
         return {"config": {"nv": False, "fault_run": False, "churn": True}, "ops": ops}
     nlists = r.randint(1, 3)
     lists = []
+    shared = []
     for lid in range(nlists):
         wf = r.random() < 0.6
-        terms = _gen_list(r, wf, nv)
+        terms = _gen_list(r, wf, nv, shared if r.random() < 0.6 else None)
         ops.append(["list", lid, terms, wf])
         lists.append((lid, len(terms), wf))
     nev = r.randint(1, 4)
